@@ -18,7 +18,7 @@ if [ "${VERIF_NOBUILD:-}" != 1 ]; then
   # serialise builds (several checks may be started at once)
   ( flock 9; build ) 9>"$VERIF/.cache/build.lock" || exit 2
   if [ -x "$VERIF/buildov.sh" ]; then
-    case "$ID" in C05|C06|C07|C12|C15|C19) ( flock 9; "$VERIF/buildov.sh" ) 9>"$VERIF/.cache/buildov.lock" || { echo "BUILD-ERROR(overlay) property=$ID"; exit 2; } ;; esac
+    case "$ID" in C05|C06|C07|C12|C14|C15|C19) ( flock 9; "$VERIF/buildov.sh" ) 9>"$VERIF/.cache/buildov.lock" || { echo "BUILD-ERROR(overlay) property=$ID"; exit 2; } ;; esac
   fi
 fi
 exec "$VERIF/.cache/bin/vcheck" "$ID" --tier "$TIER"
